@@ -107,9 +107,10 @@ def show_mat(m):
 
 
 def plain_mats(nas):
+    """JSON-able description of the stored matrices (shape kept: a matrix may have no rows)"""
     out = {}
     for key in ("got", "goq", "gm", "pha", "phg"):
-        out[key] = {str(int(s)): np.asarray(m).tolist() if np.asarray(m).size else [list(np.asarray(m).shape)]
+        out[key] = {str(int(s)): {"shape": list(np.asarray(m).shape), "data": np.asarray(m).ravel().tolist()}
                     for s, m in nas.get(key, {}).items()}
     return out
 
@@ -119,10 +120,7 @@ def from_plain(p, mats):
     for key in ("got", "goq", "gm", "pha", "phg"):
         nas[key] = {}
         for s, m in mats.get(key, {}).items():
-            a = np.array(m, dtype=float)
-            if a.ndim == 2 and a.shape[0] == 1 and a.shape[1] == 2 and False:
-                pass
-            nas[key][int(s)] = a
+            nas[key][int(s)] = np.array(m["data"], dtype=float).reshape(m["shape"])
     return nas
 
 
@@ -182,6 +180,8 @@ def gen_request(rng, uset, masks, prefer=None):
     L = _letters(uset, masks)
     tags = set()
     grids = sorted({i for (i, d) in keys if d > 0})
+    if not keys:  # a table without rows: every request misses
+        return [[97, 0]], "2", "97 0", {"missing"}
     r = rng.random()
     if r < 0.2 and grids:
         ids = [rng.choice(grids) for _ in range(rng.randint(1, 2))]
